@@ -296,6 +296,14 @@ func (r *Route) goodRegexString(n, v string) {
 	}
 }
 
+// check the path regex: each capturing group must belong to a path var.
+// otherwise the matched values cannot be mapped to the var names on request.
+func (r *Route) goodRegexGroups() {
+	if r.regex.NumSubexp() != len(r.matches) {
+		goutil.Panicf("invalid route path, dont allow capturing group '(' out of path vars. path: %s", r.path)
+	}
+}
+
 // check start string and match a regex route
 func (r *Route) match(path string) (ps Params, ok bool) {
 	// check start string
